@@ -23,6 +23,7 @@ func (timeoutErr) Temporary() bool { return true }
 
 var errTimeout net.Error = timeoutErr{}
 var errClosedConn = errors.New("use of closed connection")
+var errBrokenPipe = errors.New("write: broken pipe (the remote hung up)")
 
 type addr string
 
@@ -153,6 +154,10 @@ type duplex struct {
 	wrote      int
 	nodeClosed bool
 	waiting    int // node goroutines blocked in Read
+	// write faults: from now on every Write of the node fails with this error (the remote hung up /
+	// stopped reading until the node's write deadline passed)
+	writeErr    error
+	failedWrite int
 }
 
 func newDuplex() *duplex {
@@ -194,6 +199,11 @@ func (d *duplex) Write(p []byte) (int, error) {
 	if d.nodeClosed {
 		return 0, errClosedConn
 	}
+	if d.writeErr != nil {
+		d.failedWrite++
+		d.cond.Broadcast()
+		return 0, d.writeErr
+	}
 	if d.remoteEOF {
 		return 0, io.ErrClosedPipe
 	}
@@ -227,6 +237,7 @@ func (d *duplex) send(b []byte) {
 	d.cond.Broadcast()
 	d.mu.Unlock()
 }
+func (d *duplex) failWrites(err error) { d.mu.Lock(); d.writeErr = err; d.mu.Unlock() }
 func (d *duplex) closeRemote() { d.mu.Lock(); d.remoteEOF = true; d.cond.Broadcast(); d.mu.Unlock() }
 func (d *duplex) fireDeadline() { d.mu.Lock(); d.expire = true; d.cond.Broadcast(); d.mu.Unlock() }
 func (d *duplex) closedByNode() bool { d.mu.Lock(); defer d.mu.Unlock(); return d.nodeClosed }
